@@ -4,6 +4,7 @@ Real ibldsp.fourier.fshift with scipy.fft.rfft/irfft replaced by the exact DFT o
 real ibldsp.utils.parabolic_max on symbolic parabolas.
 """
 import math
+from fractions import Fraction
 
 import numpy as np
 import scipy
@@ -165,6 +166,25 @@ def case_shift_1d(ctx, n):
     ctx.oblige("zero_shift_is_identity", all_([core.eq(z[i], vals[i]) for i in range(n)]))
 
 
+def case_shift_nan_input(ctx, n):
+    """an input holding missing samples (NaN): whatever comes out, the caller's array must be left as it was"""
+    import ibldsp.fourier as f
+    vals = [ctx.real(f"w{i}", -100, 100) for i in range(n)]
+    miss = [ctx.bool(f"m{i}") for i in range(n)]
+    ctx.assume(core.any_(miss))
+    data = [core.SReal(vals[i].t, nan=miss[i].t) for i in range(n)]
+    w = arrays.mk(list(data), tag=np.dtype(np.float32))
+    for s in (0, 1):
+        try:
+            f.fshift(w, s)
+        except Exception:  # noqa  (a refusal of NaN input would be legitimate: only the caller's array matters here)
+            pass
+        now = np.asarray(arrays._plain(w), dtype=object).ravel().tolist()
+        same = all_([and_(core.eq(arrays.s_isnan(now[i]) if isinstance(arrays.s_isnan(now[i]), core.Sym) else bool(arrays.s_isnan(now[i])), miss[i]),
+                          or_(miss[i], core.eq(core.SReal(now[i].t) if isinstance(now[i], core.SReal) else now[i], vals[i]))) for i in range(n)])
+        ctx.oblige("input_with_missing_samples_left_untouched", same, detail={"s": s, "n": n})
+
+
 def case_shift_2d(ctx, rows, cols, axis):
     import ibldsp.fourier as f
     vals, w = _sig(ctx, (rows, cols))
@@ -198,7 +218,7 @@ def case_shift_2d(ctx, rows, cols, axis):
 def case_parabola_1d(ctx, n, imax):
     import ibldsp.utils as u
     a = ctx.real("a", -100, 100)
-    b = ctx.real("b", 0.001, 100)
+    b = ctx.real("b", Fraction(1, 10 ** 12), 100)      # any positive curvature, however flat the maximum
     p = ctx.real("p")
     interior = 0 < imax < n - 1
     if interior:
@@ -224,7 +244,7 @@ def case_parabola_2d(ctx, n):
     ps, as_ = [], []
     for r, imax in enumerate((1, n - 2)):
         a = ctx.real(f"a{r}", -100, 100)
-        b = ctx.real(f"b{r}", 0.001, 100)
+        b = ctx.real(f"b{r}", Fraction(1, 10 ** 12), 100)
         p = ctx.real(f"p{r}")
         ctx.assume(and_(p > imax - 0.5, p < imax + 0.5))
         rows.append([a - b * (i - p) * (i - p) for i in range(n)])
@@ -295,6 +315,8 @@ def cases(tier):
     cs = [Case("shift_1d_n2", "case_shift_1d", {"n": 2}), Case("shift_1d_n4", "case_shift_1d", {"n": 4}, timeout_s=2400)]
     for (r, c, ax) in ((2, 4, 1), (4, 2, 0), (2, 4, -1), (2, 2, 0)) if tier == "quick" else ((2, 4, 1), (4, 2, 0), (2, 4, -1), (2, 2, 0), (2, 2, 1), (3, 4, 1), (4, 3, 0), (4, 4, 0), (4, 4, 1), (1, 4, 1), (4, 1, 0)):
         cs.append(Case(f"shift_2d_{r}x{c}_axis{ax}", "case_shift_2d", {"rows": r, "cols": c, "axis": ax}, timeout_s=2400))
+    for n in (2, 4):
+        cs.append(Case(f"shift_nan_input_n{n}", "case_shift_nan_input", {"n": n}))
     for n, imax in ((5, 1), (5, 2), (5, 3), (4, 0), (4, 3)):
         cs.append(Case(f"parabola_1d_n{n}_imax{imax}", "case_parabola_1d", {"n": n, "imax": imax}, timeout_s=1500))
     cs.append(Case("parabola_2d_n5", "case_parabola_2d", {"n": 5}, timeout_s=1500))
@@ -321,6 +343,18 @@ def replay(case, params, cex):
     m = cex["model"]
     from fractions import Fraction
     F = lambda v: float(Fraction(str(v)))
+    if case.startswith("shift_nan_input"):
+        n = params["n"]
+        vals = ["float('nan')" if m.get(f"m{i}") else repr(F(m[f"w{i}"])) for i in range(n)]
+        return f"""
+import ibldsp.fourier as f
+w = np.array([{', '.join(vals)}], dtype=np.float32); keep = w.copy()
+for s in (0, 1):
+    try: f.fshift(w, s)
+    except Exception as e: print('raised', repr(e))
+    if not np.array_equal(w, keep, equal_nan=True): reproduced(f'fshift(w, {{s}}) changed the input array from {{keep.tolist()}} to {{w.tolist()}}')
+not_reproduced()
+"""
     if case.startswith("corrmax"):
         n = params["n"]
         return f"""
